@@ -439,10 +439,14 @@ def bounded(tier, seed):
     b.bound = "<= 3 messages per connection, payloads <= 21 bytes, FRAGMENT_SIZE = 4"
     rnd = random.Random(seed)
 
-    def pmd():
+    def pmd(header):
         e = wsproto.extensions.PerMessageDeflate()
-        e.finalize("permessage-deflate")
+        e.finalize(header)
         return e
+
+    PMD = "permessage-deflate"
+    PMD_PARAMS = [PMD + "; client_no_context_takeover", PMD + "; server_no_context_takeover", PMD + "; client_no_context_takeover; server_no_context_takeover",
+                  PMD + "; client_max_window_bits=10; server_max_window_bits=10"]
 
     def split(kind, data, pattern):
         if pattern == "whole" or len(data) < 2:
@@ -469,7 +473,7 @@ def bounded(tier, seed):
 
     class Peer:
         def __init__(self, typ, deflate):
-            self.ws = wsproto.Connection(typ, [pmd()] if deflate else [])
+            self.ws = wsproto.Connection(typ, [pmd(deflate)] if deflate else [])
             self.msgs = []          # (kind, [fragment payloads])
             self.cur = []
             self.part = None
@@ -494,21 +498,31 @@ def bounded(tier, seed):
     try:
         cases = []
         one = [(d, p, pat, pol) for d in (True, False) for p in payloads for pat in patterns for pol in policies]
-        for deflate in (False, True):
+        for deflate in (None, PMD):
             for m in one:
                 cases.append((deflate, (m,), None))
         seqs = list(itertools.product(one, repeat=2))
         rnd.shuffle(seqs)
         for s in seqs[: (1500 if tier == "quick" else 40000)]:
-            cases.append((rnd.random() < 0.5, s, None))
-        for deflate in (False, True):
+            cases.append((PMD if rnd.random() < 0.5 else None, s, None))
+        for deflate in (None, PMD):
             for d in (True, False):
                 for kind, data in payloads:
                     cases.append((deflate, (), (d, kind, data)))
+        # negotiated permessage-deflate parameters (context takeover, window bits): repeated and overlapping messages in one
+        # direction exercise the compression context that both ends of each connection must agree on
+        rep_payloads = [("t", "héllo wörld héllo wörld"), ("b", bytes(range(11)) * 2), ("t", "日本語テキスト日本語テキスト")]
+        for deflate in [PMD] + PMD_PARAMS:
+            for d in (True, False):
+                for p in rep_payloads:
+                    for pat in ("whole", "two"):
+                        cases.append((deflate, ((d, p, pat, "keep"),) * 3, None))
+                cases.append((deflate, ((d, rep_payloads[0], "whole", "keep"), (d, rep_payloads[2], "whole", "keep"), (d, rep_payloads[0], "whole", "keep")), None))
+                cases.append((deflate, ((d, rep_payloads[0], "whole", "keep"), (not d, rep_payloads[0], "whole", "keep"), (d, rep_payloads[0], "whole", "longer")), None))
         for deflate, seq, inject in cases:
             flow = tflow.tflow(resp=True)
             if deflate:
-                flow.response.headers["Sec-WebSocket-Extensions"] = "permessage-deflate"
+                flow.response.headers["Sec-WebSocket-Extensions"] = deflate
             flow.websocket = mws.WebSocketData()
             ctx = sansio.context_for()
             ctx.server.address = ("example.com", 80)
@@ -621,3 +635,78 @@ def bounded(tier, seed):
     finally:
         W.Fragmentizer.FRAGMENT_SIZE = orig_fs
     return b
+
+
+# ---------------------------------------------------------------------------------------------
+# WebsocketLayer.start: both wsproto connections are configured from the negotiated extensions
+
+class StubDeflate:
+    """stands for wsproto.extensions.PerMessageDeflate: records how it was finalised"""
+
+    def finalize(self, offer):
+        self.finalized.append(offer)
+
+
+EXT_HEADERS = {
+    "absent": (None, []),
+    "plain": (b"permessage-deflate", ["permessage-deflate"]),
+    "with_parameters": (b"permessage-deflate; client_no_context_takeover; server_max_window_bits=10", ["permessage-deflate; client_no_context_takeover; server_max_window_bits=10"]),
+    "after_unknown": (b"x-webkit-foo, permessage-deflate; client_max_window_bits=12", ["permessage-deflate; client_max_window_bits=12"]),
+    "unknown_only": (b"x-webkit-foo; a=1", []),
+}
+
+
+@scenario("start", functions=[WL + ".start"], extra_inline_roots=WSPROTO)
+def s_start(vc):
+    import wsproto
+    which = vc.case("extensions_header", list(EXT_HEADERS))
+    hdr, offers = EXT_HEADERS[which]
+    client, server = mk_client(vc), mk_server(vc, timestamp_start=2.0)
+    ctx = mk_context(vc, client, server)
+    from props.httpstream import mk_headers
+    resp = mk_response(vc, status_code=101, headers=mk_headers(vc, [(b"Upgrade", b"websocket")] + ([(b"Sec-WebSocket-Extensions", hdr)] if hdr else [])))
+    wsdata = vc.new("mitmproxy.websocket:WebSocketData", messages=vc.list([]), closed_by_client=None, close_code=None, close_reason=None, timestamp_end=None)
+    flow = mk_flow(vc, client, server, mk_request(vc), resp, websocket=wsdata)
+    lay = vc.new(WL, context=ctx, flow=flow, debug=None, _paused=None, _paused_event_queue=None)
+    made, conns = [], []
+
+    def finalize(v, ext, offer):
+        made.append((ext, offer))
+        return NONE if v.mode == "sym" else None
+
+    def new_conn(v, conn_type, extensions=None, *a, conn=None, **k):
+        c = v.new("props.C28:StubDeflate", finalized=v.list([]))      # an opaque connection object
+        conns.append((c, conn_type, items_of(v, extensions) if extensions is not None else [], conn))
+        return c
+
+    # the real PerMessageDeflate objects are created; how each one is finalised (parameter parsing: wsproto) is recorded
+    vc.summary("wsproto.extensions:PerMessageDeflate.finalize", finalize)
+    vc.summary(WC, new_conn)
+    out = vc.call(WL + ".start", lay, vc.new("mitmproxy.proxy.events:Start"))
+    vc.ensure("no_exception", out.ok)
+    if not out.ok:
+        return
+    kinds = trace_kinds(out.trace)
+    n_unknown = {"absent": 0, "plain": 0, "with_parameters": 0, "after_unknown": 1, "unknown_only": 1}[which]
+    vc.ensure("trace.unknown_extensions_logged_then_start_hook", kinds == ["Log"] * n_unknown + ["WebsocketStartHook"])
+    vc.ensure("two_connections", len(conns) == 2)
+    if len(conns) != 2:
+        return
+    fields = lay.fields if vc.mode == "sym" else lay.__dict__
+
+    def conc(x):
+        return x.concrete() if hasattr(x, "concrete") else x
+
+    def enum_is(x, member):
+        return (x.concrete() == member.value) if isinstance(x, SEnum) else (x is member or x == member)
+
+    (c_ws, c_type, c_ext, c_conn), (s_ws, s_type, s_ext, s_conn) = conns
+    vc.ensure("client_side.is_the_server_end_on_the_client_connection", fields.get("client_ws") is c_ws and c_conn is client and enum_is(c_type, wsproto.ConnectionType.SERVER))
+    vc.ensure("server_side.is_the_client_end_on_the_server_connection", fields.get("server_ws") is s_ws and s_conn is server and enum_is(s_type, wsproto.ConnectionType.CLIENT))
+    for side, exts in (("client_side", c_ext), ("server_side", s_ext)):
+        got = [[conc(o) for x, o in made if x is e] for e in exts]
+        # every negotiated permessage-deflate offer configures this side, with its full parameter string, exactly once
+        vc.ensure(side + ".deflate_finalised_with_the_negotiated_parameters", got == [[o] for o in offers])
+    vc.ensure("separate_extension_objects_per_side", all(a is not b for a in c_ext for b in s_ext) and len(made) == 2 * len(offers) and all(isa(e, wsproto.extensions.PerMessageDeflate) for e in c_ext + s_ext))
+    h = fields.get("_handle_event")
+    vc.ensure("then_relays", h is not None and (h.func.qualname.endswith(".relay_messages") if vc.mode == "sym" else getattr(h, "__name__", "") == "relay_messages" or getattr(getattr(h, "__wrapped__", None), "__name__", "") == "relay_messages"))
